@@ -1778,6 +1778,8 @@ static inline int pool_pop_threads_ex(ABT_pool pool, ABT_thread *threads,
 
     if (len > 0) {
         ABTI_pool_pop_many(p_pool, threads, len, num, pool_ctx);
+    } else {
+        *num = 0;
     }
     return ABT_SUCCESS;
 }
